@@ -161,12 +161,13 @@ fn rename(g: &G, from: u32, to: u32) -> G {
         G::PlusZ(a, b, c) => G::PlusZ(rt(a, &mut f), rt(b, &mut f), rt(c, &mut f)),
         G::TimesZ(a, b, c) => G::TimesZ(rt(a, &mut f), rt(b, &mut f), rt(c, &mut f)),
         G::Rel(r, ts) => G::Rel(*r, ts.iter().map(|t| rt(t, &mut f)).collect()),
-        G::For(x, coll, body) => {
+        G::For(x, coll, body) | G::ForList(x, coll, body) => {
             let coll = coll.iter().map(|t| rt(t, &mut f)).collect();
-            if *x == from {
-                G::For(*x, coll, body.clone())
+            let nb = if *x == from { body.clone() } else { rgs(body, from, to) };
+            if matches!(g, G::For(_, _, _)) {
+                G::For(*x, coll, nb)
             } else {
-                G::For(*x, coll, rgs(body, from, to))
+                G::ForList(*x, coll, nb)
             }
         }
         G::Project(vs, gs) => G::Project(
@@ -209,12 +210,13 @@ pub fn subst_goal(g: &G, x: u32, t: &T) -> G {
         G::PlusZ(a, b, c) => G::PlusZ(rt(a, &mut f), rt(b, &mut f), rt(c, &mut f)),
         G::TimesZ(a, b, c) => G::TimesZ(rt(a, &mut f), rt(b, &mut f), rt(c, &mut f)),
         G::Rel(r, ts) => G::Rel(*r, ts.iter().map(|t| rt(t, &mut f)).collect()),
-        G::For(y, coll, body) => {
+        G::For(y, coll, body) | G::ForList(y, coll, body) => {
             let coll = coll.iter().map(|t| rt(t, &mut f)).collect();
-            if *y == x {
-                G::For(*y, coll, body.clone())
+            let nb = if *y == x { body.clone() } else { sg(body) };
+            if matches!(g, G::For(_, _, _)) {
+                G::For(*y, coll, nb)
             } else {
-                G::For(*y, coll, sg(body))
+                G::ForList(*y, coll, nb)
             }
         }
         G::Project(vs, gs) => G::Project(vs.clone(), sg(gs)),
@@ -259,7 +261,7 @@ fn goal_paths(g: &G, next_var: &mut u32) -> Vec<Path> {
             distinct: vec![t.clone()],
             ..Default::default()
         }],
-        G::For(x, coll, body) => {
+        G::For(x, coll, body) | G::ForList(x, coll, body) => {
             let mut gs = vec![];
             for el in coll {
                 for b in body {
@@ -499,7 +501,7 @@ pub fn atoms_of_goals(gs: &[G], out: &mut Vec<T>) {
                 at(b, out);
                 at(c, out);
             }
-            G::For(_, coll, body) => {
+            G::For(_, coll, body) | G::ForList(_, coll, body) => {
                 coll.iter().for_each(|t| at(t, out));
                 atoms_of_goals(body, out);
             }
